@@ -30,6 +30,21 @@ pub fn run(ctx: &Ctx, rep: &mut Report) {
     });
 }
 
+/// Which tool (if any) reported a memory/thread error for this n2 run.
+pub fn sanitizer_report(out: &ROut) -> Option<&'static str> {
+    let se = String::from_utf8_lossy(&out.stderr);
+    if out.exit == Some(98) || se.contains("AddressSanitizer") {
+        return Some("asan");
+    }
+    if out.exit == Some(66) || se.contains("ThreadSanitizer") {
+        return Some("tsan");
+    }
+    if out.exit == Some(99) || se.contains("ERROR SUMMARY") || se.contains("Invalid read") || se.contains("uninitialised value") {
+        return Some("valgrind");
+    }
+    None
+}
+
 fn real_opts(prop: &str, rng: &mut Rng) -> GenOpts {
     let mut o = GenOpts::default();
     o.min_steps = 3;
@@ -85,6 +100,15 @@ pub fn judge_real(
     rep.count("agent_events", out.events.len() as u64);
     if out.timed_out {
         rep.inconclusive.push(format!("case {}: n2 did not finish within {} s (watchdog; inconclusive)", case, inv.timeout_s));
+        return false;
+    }
+    // a sanitizer / valgrind report about n2 itself is a violation whatever the property under check
+    if let Some(tool) = sanitizer_report(out) {
+        rep.violation(
+            &format!("sanitizer-report:{}", tool),
+            &format!("{} reported an error in n2 (exit {:?}); stderr: {}", tool, out.exit, String::from_utf8_lossy(&out.stderr).chars().take(1500).collect::<String>()),
+            mk(),
+        );
         return false;
     }
     let rel = Rel::new(proj_before);
